@@ -12,6 +12,7 @@ import (
 	"net"
 	"strings"
 	"sync"
+	"sync/atomic"
 	"testing"
 	"time"
 
@@ -44,6 +45,10 @@ type Hostile struct {
 	Msgs    []Msg  `json:"msgs"`
 	End     string `json:"end"` // close | rst | silent | deaf (stops reading after message DeafAt, goes on sending, then stays silent)
 	DeafAt  int    `json:"deaf_at,omitempty"`
+	// SameHost: this hostile connection comes from the same address as hostile connection 0 and, when
+	// it has no session of its own, uses the session id that connection 0 obtained (a second
+	// connection of one client steering - or tearing down - the session of the first).
+	SameHost bool `json:"same_host,omitempty"`
 }
 
 // Scenario is one C11 run.
@@ -120,6 +125,11 @@ func gen(seed uint64, tier string) Scenario {
 		}
 		h.End = []string{"close", "close", "rst", "silent", "silent"}[r.Intn(5)]
 		sc.Hostile = append(sc.Hostile, h)
+	}
+	// a second connection from the address of the first one (hash-derived so that no other choice moves)
+	if x := core.HS(seed, "c11.samehost", "", 0); len(sc.Hostile) > 1 && x%100 < 30 {
+		sc.Hostile[1].SameHost = true
+		sc.Hostile[1].TLS = sc.Hostile[0].TLS
 	}
 	// a peer that stops reading (plain servers only: under TLS the write path holds a mutex around
 	// the socket call, DESIGN 2.3); hash-derived so that no other choice moves
@@ -346,7 +356,7 @@ func run(t *testing.T, sc Scenario) *core.Result {
 	var summary map[string]any
 	res := sys.Run(t, opts, func(w *sys.World) {
 		w.ProbeInit("hostile_got_response", "hostile_closed_by_server", "hostile_session_opened", "hostile_tls_handshake", "http_tunnel_attempt",
-			"ws_attempt", "silent_peer_expired", "hostile_stopped_reading", "deaf_peer_expired", "fresh_client_served", "good_packets", "cleanup_verified")
+			"ws_attempt", "second_conn_same_address", "second_conn_uses_first_session", "silent_peer_expired", "hostile_stopped_reading", "deaf_peer_expired", "fresh_client_served", "good_packets", "cleanup_verified")
 		rootGID := core.GoID()
 		srvNode := w.Net.Node("srv", "10.0.0.1")
 		h := sys.NewHandler(w)
@@ -500,11 +510,16 @@ func run(t *testing.T, sc Scenario) *core.Result {
 			port     int
 		}
 		hs := make([]*hstate, len(sc.Hostile))
+		var sess0 atomic.Value // session id obtained by hostile connection 0
 		since := func() time.Duration { return time.Since(w.Log.Start()) }
 		for i, hc := range sc.Hostile {
 			name := fmt.Sprintf("hostile%d", i)
 			hnames = append(hnames, name)
 			node := w.Net.Node(name, fmt.Sprintf("10.0.0.%d", 100+i))
+			if hc.SameHost {
+				node = w.Net.Node("hostile0", "10.0.0.100")
+				w.Probe("second_conn_same_address")
+			}
 			st := &hstate{}
 			hs[i] = st
 			w.Go(name, func() {
@@ -543,6 +558,12 @@ func run(t *testing.T, sc Scenario) *core.Result {
 					if m.GapUS > 0 {
 						time.Sleep(us(m.GapUS))
 					}
+					if hc.SameHost && sess == "" {
+						if v, ok := sess0.Load().(string); ok && v != "" {
+							sess = v
+							w.Probe("second_conn_uses_first_session")
+						}
+					}
 					b := build(m.Tmpl, scheme, sess, k, mu)
 					if m.Mut {
 						var kind string
@@ -579,6 +600,9 @@ func run(t *testing.T, sc Scenario) *core.Result {
 									var sx headers.Session
 									if sx.Unmarshal(v) == nil {
 										sess = sx.Session
+										if i == 0 {
+											sess0.Store(sess)
+										}
 									}
 								}
 							}
